@@ -209,6 +209,48 @@ def boundary_scenarios(work, rng, tier):
     return out
 
 
+def unpack_compare(tools, img, exp, dest, sub=None):
+    """rdsquashfs --unpack-path (whole image, or the sub directory `sub`) into dest with --chmod --chown --set-times: the unpacked
+    objects must be the expected ones (kind, permission bits, owner, content, symlink target, device number)"""
+    import stat as st_
+    shutil.rmtree(dest, ignore_errors=True)
+    rc, o, e = sh([tools + "/rdsquashfs", "-q", "-u", "/" + (sub or ""), "-p", dest, "--chmod", "--chown", img], timeout=120)
+    if rc != 0:
+        shutil.rmtree(dest, ignore_errors=True)
+        return ["rdsquashfs -u /%s fails (rc %d): %s" % (sub or "", rc, e.decode(errors="replace")[-120:])]
+    bad = []
+    pre = (sub.encode() + b"/") if sub else b""
+    want = {p[len(pre):]: r for p, r in exp.items() if p.startswith(pre)} if sub else dict(exp)
+    seen = set()
+    for d, dn, fn in os.walk(dest.encode()):
+        for x in dn + fn:
+            full = os.path.join(d, x)
+            rel = os.path.relpath(full, dest.encode())
+            seen.add(rel)
+            r = want.get(rel)
+            if r is None:
+                bad.append("unexpected object %r" % rel)
+                continue
+            s = os.lstat(full)
+            kind = ("dir" if st_.S_ISDIR(s.st_mode) else "file" if st_.S_ISREG(s.st_mode) else "slink" if st_.S_ISLNK(s.st_mode) else
+                    "fifo" if st_.S_ISFIFO(s.st_mode) else "sock" if st_.S_ISSOCK(s.st_mode) else "chr" if st_.S_ISCHR(s.st_mode) else "blk")
+            if kind != r["kind"]:
+                bad.append("%r is a %s, expected %s" % (rel, kind, r["kind"]))
+            elif kind == "file" and vlib.fsha(full.decode(errors="surrogateescape")) != r["sha"]:
+                bad.append("%r has different content" % rel)
+            elif kind == "slink" and os.readlink(full) != r["target"]:
+                bad.append("%r points at %r, expected %r" % (rel, os.readlink(full), r["target"]))
+            elif kind != "slink" and ((s.st_mode & 0o7777) != r["mode"] or s.st_uid != r["uid"] or s.st_gid != r["gid"]):
+                bad.append("%r has mode/owner %o %d:%d, expected %o %d:%d" % (rel, s.st_mode & 0o7777, s.st_uid, s.st_gid, r["mode"], r["uid"], r["gid"]))
+            elif kind in ("chr", "blk") and s.st_rdev != r["devno"]:
+                bad.append("%r has device number %d, expected %d" % (rel, s.st_rdev, r["devno"]))
+    missing = [p for p in want if p and p not in seen and want[p]["kind"] != "sock"]
+    if missing:
+        bad.append("%d entries were not unpacked, e.g. %r" % (len(missing), missing[0]))
+    shutil.rmtree(dest, ignore_errors=True)
+    return bad[:3]
+
+
 def listing_size_boundary(tools, work, rep, ev):
     """the 64 KiB listing boundary: a directory with < 256 entries whose listing has exactly 65529..65537 bytes (a basic directory
     inode stores listing size + 3 in 16 bits).  The adjustable name is tuned by measuring the produced image."""
@@ -426,6 +468,13 @@ def run(tier):
                         okx = False
                 if not okx or rest:
                     res["reader"].append("rdsquashfs -x %r does not show the stored pairs %s: output %r" % (nm, sorted(left)[:3], o4[:120]))
+            # unpack: the whole image and one sub directory (moderately sized trees, names the host file system can hold)
+            if len(s.nodes) <= 400 and all(len(c.encode()) <= 255 for p_ in s.nodes for c in p_.split("/")):      # NAME_MAX of the host
+                exp = s.expected()
+                res["reader"] += unpack_compare(tools, out, exp, out + ".un")
+                subdirs = sorted(p for p, nd in s.nodes.items() if nd["kind"] == "dir" and "/" not in p and any(q.startswith(p + "/") for q in s.nodes))
+                if subdirs:
+                    res["reader"] += unpack_compare(tools, out, exp, out + ".uns", sub=subdirs[0])
             rc3, o3, e3 = sh([tools + "/rdsquashfs", "-d", out], timeout=60)
             if rc3 != 0 or len([l for l in o3.split(b"\n") if l.strip()]) != len(s.nodes) + len(getattr(s, "links", {})):
                 res["reader"].append("rdsquashfs -d: rc %d, %d lines for %d entries" % (rc3, len([l for l in o3.split(b'\n') if l.strip()]), len(s.nodes) + len(getattr(s, "links", {}))))
